@@ -7,7 +7,7 @@ from ..engine import Outcome, Verdict, crash_verdicts, infra_problem, shrink_lis
 
 ID = "C13"
 RULE = ("case = K tasks (2-8 quick, up to 16 thorough), each a REAL pthread that creates its own context (drawn heap size), loads the standard "
-        "environment, imports a drawn set of libraries incl. C-backed ones, runs a drawn deterministic workload (allocation-heavy, own forced "
+        "environment (half of the tasks the way the manual's embedding example does, lending the host's stdin/stdout/stderr through sexp_load_standard_ports with no_close=1), imports a drawn set of libraries incl. C-backed ones, runs a drawn deterministic workload (allocation-heavy, own forced "
         "collections, interns symbols, registers record types, defines globals with the same names but different values in every context), "
         "and destroys the context; tasks differ in workload and lifetime so creations/destructions overlap other tasks' execution. Exactly "
         "one thread holds a baton; at every switch point (allocation hook every n-th allocation, VM tick, around create / standard-env / "
